@@ -373,6 +373,14 @@ def scen_merge(rng, n):
     out.append(("(conc C11-%d (pipe (subject a plain) (subject b plain) (subject s plain) (sub (flat_map (fm_ref a b) (ref s)) (react)) "
                 "(hnext s 0) (hnext s 1) (drive a (0 (n 1)) (0 (n 2)) (0 c)) (drive b (0 (n 11)) (0 (n 12)) (0 c)) (drive s (0 c))))" % i,
                 ("merge", [[1, 2], [11, 12]], None))); i += 1
+    # the OUTER items of flat_map arrive from two threads at the same instant (two inner observers are attached
+    # concurrently), the hot inners emit afterwards from their own threads
+    out.append(("(conc C11-%d (pipe (subject a plain) (subject b plain) (subject s plain) (sub (flat_map (fm_ref a b) (ref s)) (react)) "
+                "(drive s (0 (n 0))) (drive s (0 (n 1))) (drive a (2 (n 1)) (1 (n 2)) (1 c)) (drive b (3 (n 11)) (2 (n 12)) (2 c)) (drive s (9 c))))" % i,
+                ("merge", [[1, 2], [11, 12]], None))); i += 1
+    out.append(("(conc C11-%d (pipe (subject a plain) (subject b plain) (sub (flat_map (fm_ref a b) (merge (tsrc 0 (0 (n 0)) (0 c)) (tsrc 1 (0 (n 1)) (0 c)))) (react)) "
+                "(drive a (2 (n 1)) (1 (n 2)) (1 c)) (drive b (3 (n 11)) (2 (n 12)) (2 c))))" % i,
+                ("merge", [[1, 2], [11, 12]], None))); i += 1
     return out
 
 
